@@ -1,9 +1,7 @@
-from textwrap import indent
-
 from pydbml.classes import TableGroup
 from pydbml.renderer.dbml.default.renderer import DefaultDBMLRenderer
 from pydbml.renderer.dbml.default.table import get_full_name_for_dbml
-from pydbml.renderer.dbml.default.utils import comment_to_dbml
+from pydbml.renderer.dbml.default.utils import comment_to_dbml, indent_text
 from pydbml.tools import doublequote_string
 
 
@@ -18,6 +16,6 @@ def render_table_group(model: TableGroup) -> str:
     for i in model.items:
         result += f'    {get_full_name_for_dbml(i)}\n'
     if model.note:
-        result += indent(model.note.dbml, '    ') + '\n'
+        result += indent_text(model.note.dbml, '    ') + '\n'
     result += '}'
     return result
